@@ -1,5 +1,204 @@
-(* engine_driver.ml - engine-layer glue (stub until the engine model is extracted) *)
-type t = unit
-let create () : t = ()
-let reset (_ : t) = ()
-let exec (_ : t) (_ : bool) (_ : string array) : string = "err engine-layer-not-built"
+(* engine_driver.ml — replays engine-layer trace lines ("E ...") on the extracted model
+   (Model.db_open, db_put, ...).  Glue only: argument parsing and printing of results and
+   I/O events in the format of harness/vh/engine.go. *)
+open Model
+open Util
+
+type t = {
+  mutable cfg : cfg;
+  mutable db : db option;
+  mutable disk : disk;                       (* disk of the current directory (files not held open) *)
+  mutable batch : batch option;
+  mutable cur : string;
+  disks : (string, disk) Hashtbl.t;          (* other directories (backups) *)
+  mutable iter : Iter_driver.t option;
+}
+
+let empty_disk : disk = { k_data = []; k_hint = None; k_merge = None }
+let default_cfg : cfg = { c_fsize = n_of_int 1024; c_sync = N0; c_bps = N0; c_io = N0 }
+
+let create () : t =
+  { cfg = default_cfg; db = None; disk = empty_disk; batch = None; cur = "db";
+    disks = Hashtbl.create 4; iter = None }
+let reset (s : t) =
+  s.cfg <- default_cfg; s.db <- None; s.disk <- empty_disk; s.batch <- None; s.cur <- "db";
+  Hashtbl.reset s.disks; s.iter <- None
+
+let fname_str = function
+  | FData id -> "D" ^ string_of_n id
+  | FHint -> "H"
+  | MData id -> "M" ^ string_of_n id
+  | MHint -> "MH"
+  | MMarker -> "MK"
+
+let event_str = function
+  | EvCreate f -> "C " ^ fname_str f
+  | EvOpen f -> "O " ^ fname_str f
+  | EvWrite (f, n) -> Printf.sprintf "W %s %s" (fname_str f) (string_of_n n)
+  | EvSync f -> "S " ^ fname_str f
+  | EvClose f -> "X " ^ fname_str f
+  | EvTrunc (f, n) -> Printf.sprintf "T %s %s" (fname_str f) (string_of_n n)
+  | EvMkdirData -> "MD"
+  | EvMkdirMerge -> "MM"
+  | EvRemove f -> "R " ^ fname_str f
+  | EvRename (a, b) -> Printf.sprintf "N %s %s" (fname_str a) (fname_str b)
+  | EvRemoveAllMerge -> "RA"
+
+(* same canonicalisation as sortCloseGroups in engine.go *)
+let file_order (name : string) : string =
+  if String.length name > 1 && (name.[0] = 'D' || name.[0] = 'M') && name.[1] >= '0' && name.[1] <= '9'
+  then Printf.sprintf "%c%012s" name.[0] (String.sub name 1 (String.length name - 1))
+  else "~" ^ name
+let sort_close_groups (evs : string list) : string list =
+  let name_of e = match String.split_on_char ' ' e with _ :: n :: _ -> n | _ -> "" in
+  let groups = List.fold_left (fun acc e ->
+    match acc with
+    | (n, es) :: rest when n = name_of e -> (n, e :: es) :: rest
+    | _ -> (name_of e, [e]) :: acc) [] evs in
+  let groups = List.rev_map (fun (n, es) -> (n, List.rev es)) groups in
+  let groups = List.stable_sort (fun (a, _) (b, _) -> compare (file_order a) (file_order b)) groups in
+  List.concat_map snd groups
+
+let events_str ?(sorted = false) (evs : event list) : string =
+  let l = List.map event_str evs in
+  let l = if sorted then sort_close_groups l else l in
+  if l = [] then "" else " ;; " ^ String.concat " ; " l
+
+let eerr_name = function
+  | EKeyIsEmpty -> "keyempty" | EKeyNotFound -> "notfound" | EDataFileNotFound -> "nofile"
+  | EIndexUpdateFailed -> "indexfail" | EBatchCommitted -> "committed"
+  | EMergeOutputTooLarge -> "mergetoolarge" | EMergeInProgress -> "merging"
+  | EReadErr e -> (match e with EOF -> "eof" | UnexpectedEOF -> "torn" | InvalidCRC -> "crc" | ErrClosed -> "closed")
+  | EBadPos -> "badpos" | EDirCorrupted -> "dircorrupted"
+
+let keys_digest (keys : n list list) : string =
+  let b = Buffer.create 64 in
+  List.iter (fun k -> Buffer.add_string b (obs_bytes k); Buffer.add_char b ';') keys;
+  Printf.sprintf "%d %s" (List.length keys) (md5hex (Buffer.contents b))
+
+let get_db s = match s.db with Some d -> d | None -> failwith "database not open"
+let get_batch s = match s.batch with Some b -> b | None -> failwith "no batch"
+
+let pad9 (id : n) : string = Printf.sprintf "%09d" (int_of_n id)
+
+let listing (s : t) : string =
+  let out = ref [] in
+  let add pre name size = out := Printf.sprintf "%s%s:%s" pre name (string_of_n size) :: !out in
+  let data = match s.db with Some d -> db_files d | None -> s.disk.k_data in
+  List.iter (fun (id, f) -> add "D/" (pad9 id ^ ".data") f.lf_phys) data;
+  (match s.disk.k_hint with Some h -> add "D/" "000000000.hint" h.hf_phys | None -> ());
+  (match s.disk.k_merge with
+   | Some m ->
+     List.iter (fun (id, f) -> add "M/" (pad9 id ^ ".data") f.lf_phys) m.m_files;
+     (match m.m_hint with Some h -> add "M/" "000000000.hint" h.hf_phys | None -> ());
+     (match m.m_marker with
+      | Some x -> add "M/" "000000000.merge-finished" (if x = N0 then N0 else n_of_int 4)
+      | None -> ())
+   | None -> ());
+  let l = List.sort compare !out in
+  if l = [] then "-" else String.concat "," l
+
+(* observation text after "=>" without the events part, for inputs observed from the implementation *)
+let obs_head (o : string) : string =
+  match split_first o " ;; " with (h, _) -> String.trim h
+
+let exec (s : t) (verbose : bool) (f : string array) (obs : string option) : string =
+  ignore verbose;
+  match f.(1) with
+  | "dir" ->
+    (* leave the current directory (its disk is kept), enter another one *)
+    Hashtbl.replace s.disks s.cur s.disk;
+    s.cur <- f.(2);
+    s.disk <- (try Hashtbl.find s.disks s.cur with Not_found -> empty_disk);
+    s.db <- None; s.batch <- None; ""
+  | "open" ->
+    let c = { c_fsize = n_of_string f.(2); c_sync = n_of_string f.(3); c_bps = n_of_string f.(4);
+              c_io = n_of_string f.(5) } in
+    s.cfg <- c;
+    (match db_open c s.disk with
+     | (OpenOk (d, k), evs) -> s.db <- Some d; s.disk <- k; "ok" ^ events_str evs
+     | (OpenErr (e, k), evs) -> s.disk <- k; "err " ^ eerr_name e ^ events_str evs)
+  | "close" ->
+    let (k, evs) = db_close (get_db s) s.disk in
+    s.db <- None; s.disk <- k; s.batch <- None;
+    "ok" ^ events_str ~sorted:true evs
+  | "put" ->
+    let ((d, e), evs) = db_put (get_db s) (tok_bytes f.(2)) (tok_bytes f.(3)) in
+    s.db <- Some d;
+    (match e with None -> "ok" | Some e -> "err " ^ eerr_name e) ^ events_str evs
+  | "del" ->
+    let ((d, e), evs) = db_delete (get_db s) (tok_bytes f.(2)) in
+    s.db <- Some d;
+    (match e with None -> "ok" | Some e -> "err " ^ eerr_name e) ^ events_str evs
+  | "get" ->
+    let ((d, r), evs) = db_get (get_db s) (tok_bytes f.(2)) in
+    s.db <- Some d;
+    (match r with Inl v -> "ok " ^ obs_bytes v | Inr e -> "err " ^ eerr_name e) ^ events_str evs
+  | "dump" ->
+    let keys = db_list_keys (get_db s) in
+    let b = Buffer.create 64 in
+    let evs = ref [] in
+    List.iter (fun k ->
+      let ((d, r), e) = db_get (get_db s) k in
+      s.db <- Some d; evs := !evs @ e;
+      match r with
+      | Inl v -> Buffer.add_string b (obs_bytes k ^ "=" ^ obs_bytes v ^ ";")
+      | Inr e -> Buffer.add_string b (obs_bytes k ^ "!" ^ eerr_name e ^ ";")) keys;
+    Printf.sprintf "%d %s" (List.length keys) (md5hex (Buffer.contents b)) ^ events_str !evs
+  | "list" -> keys_digest (db_list_keys (get_db s))
+  | "fold" ->
+    let ((d, r), evs) = db_fold (get_db s) in
+    s.db <- Some d;
+    (match r with
+     | Inl l ->
+       let b = Buffer.create 64 in
+       List.iter (fun (k, v) -> Buffer.add_string b (obs_bytes k ^ "=" ^ obs_bytes v ^ ";")) l;
+       Printf.sprintf "ok %d %s" (List.length l) (md5hex (Buffer.contents b))
+     | Inr e -> "err " ^ eerr_name e) ^ events_str evs
+  | "stat" ->
+    let (((k, fn), r), t) = db_stat (get_db s) in
+    Printf.sprintf "%s %s %s %s" (string_of_n k) (string_of_n fn) (string_of_n r) (string_of_n t)
+  | "sync" ->
+    let (d, evs) = db_sync (get_db s) in
+    s.db <- Some d; "ok" ^ events_str evs
+  | "batch" ->
+    (* the batch id is chosen by the implementation (snowflake): an input of the model *)
+    let id = match obs with Some o -> obs_head o | None -> "1" in
+    s.batch <- Some (new_batch (f.(2) = "1") (n_of_string id)); id
+  | "bput" ->
+    let (((d, b), e), evs) = batch_put (get_db s) (get_batch s) (tok_bytes f.(2)) (tok_bytes f.(3)) in
+    s.db <- Some d; s.batch <- Some b;
+    (match e with None -> "ok" | Some e -> "err " ^ eerr_name e) ^ events_str evs
+  | "bdel" ->
+    let (((d, b), e), evs) = batch_delete (get_db s) (get_batch s) (tok_bytes f.(2)) in
+    s.db <- Some d; s.batch <- Some b;
+    (match e with None -> "ok" | Some e -> "err " ^ eerr_name e) ^ events_str evs
+  | "bget" ->
+    let ((d, r), evs) = batch_get (get_db s) (get_batch s) (tok_bytes f.(2)) in
+    s.db <- Some d;
+    (match r with Inl v -> "ok " ^ obs_bytes v | Inr e -> "err " ^ eerr_name e) ^ events_str evs
+  | "commit" ->
+    let (((d, b), e), evs) = batch_commit (get_db s) (get_batch s) in
+    s.db <- Some d; s.batch <- Some b;
+    (match e with None -> "ok" | Some e -> "err " ^ eerr_name e) ^ events_str evs
+  | "merge" ->
+    (* the iteration order over the map of older files is observed from the implementation *)
+    let o = match obs with Some o -> obs_head o | None -> "ok order" in
+    let order_s = match split_first o "order" with (_, r) -> String.trim r in
+    let order = if order_s = "" then [] else List.map n_of_string (String.split_on_char ',' order_s) in
+    let (((d, k), e), evs) = db_merge (get_db s) s.disk order in
+    s.db <- Some d; s.disk <- k;
+    (match e with None -> "ok" | Some e -> "err " ^ eerr_name e) ^ " order " ^ order_s ^ events_str evs
+  | "backup" ->
+    let ((d, k), evs) = db_backup (get_db s) s.disk in
+    s.db <- Some d; Hashtbl.replace s.disks f.(2) k;
+    "ok" ^ events_str ~sorted:true evs
+  | "pos" ->
+    (match idx_get (get_db s).d_index (tok_bytes f.(2)) with
+     | None -> "none"
+     | Some p -> Printf.sprintf "%s %s %s %s" (string_of_n p.p_fid) (string_of_n p.p_bid)
+                   (string_of_n p.p_off) (string_of_n p.p_size))
+  | "files" -> listing s
+  | op when String.length op >= 2 && String.sub op 0 2 = "it" ->
+    Iter_driver.exec (fun () -> get_db s) (fun d -> s.db <- Some d) (fun () -> s.iter) (fun i -> s.iter <- i) f
+  | op -> "err unknown-op-" ^ op
